@@ -12,6 +12,8 @@ From SV Require Import model.Fresh.
 From SV Require Import model.FreshSkip.
 From SV Require Import proofs.FreshProofs.
 From SV Require Import proofs.FreshSkipProofs.
+From SV Require Import model.FreshStatTypes gen.GenFreshStat model.FreshStat.
+From SV Require Import proofs.FreshStatProofs proofs.FreshStatLink.
 Import ListNotations.
 Open Scope N_scope.
 
@@ -469,6 +471,139 @@ Theorem C03_job_kind :
     derive_job_kind_gen d h = (if h then (if d then JK_try_skip else JK_validate) else JK_execute) /\
     get_next_step_state_gen h = (if h then SS_CHECKING else SS_RUNNING).
 Proof. intros d h. split; [apply derive_job_kind_spec|apply get_next_step_state_spec]. Qed.
+
+(* ---------------------------------------------------------------------------------------- *)
+(* "Has this input changed since it was recorded": FileHash.refreshed, compute_inp_hashes     *)
+(* (model/FreshStat.v; refreshed_shortcut, fh_eq_fields, refreshed_build_gen, inp_entry_gen   *)
+(* are regenerated from hash.py by translator/gen_fresh_stat.py).                             *)
+(* The theorems above compare hash codes (`disk w f` with `f_hash (files w f)`); the code     *)
+(* compares a recorded FileHash with `recorded.refreshed(path)`, which recomputes the digest   *)
+(* only if one of the compared stat fields differs.  The assumption about the world that makes *)
+(* the two agree is the explicit hypothesis `honest` (FreshStat.op_honest, "no_stat_forgery"): *)
+(* bytes written in place get another mtime than the recorded one; nobody sets the recorded     *)
+(* mtime back on the recorded inode after changing its bytes; the recorded inode number is not  *)
+(* given to another file that is moved to the path.  Files that arrive by rename(2) may carry   *)
+(* ANY mode, size and mtime, in particular the recorded ones.                                   *)
+(* ---------------------------------------------------------------------------------------- *)
+
+(* For every recorded file c0 and every honest history of writes in place, renames over the path,
+   utime, chmod and unlink: `recorded.refreshed(path) == recorded` (attrs equality: digest, mode,
+   size) holds exactly when the file under the path has the recorded content, size and mode. *)
+Theorem C03_refreshed_exact :
+  forall (c0 : cfile) (ops : list fsop),
+    cf_digest c0 <> 0 -> honest c0 (Some c0) ops = true ->
+    let old := record_of c0 in
+    let d := fs_run (Some c0) ops in
+    fh_eqb (refreshed old d) old = code_eqb (code_of_disk d) (code_of_hash old).
+Proof. exact refreshed_exact. Qed.
+
+(* The same for ANY shortcut that compares mode, mtime and inode number with their own stat fields
+   (shortcut_covers); refreshed_shortcut of the source is one (FreshStatProofs.shortcut_covers_source,
+   by computation on the generated list: it fails when a comparison is dropped from hash.py). *)
+Theorem C03_refreshed_exact_for_covering_shortcuts :
+  forall (sc : list (hfield * sfield)) (c0 : cfile) (ops : list fsop),
+    shortcut_covers sc = true -> cf_digest c0 <> 0 -> honest c0 (Some c0) ops = true ->
+    let old := record_of c0 in
+    let d := fs_run (Some c0) ops in
+    fh_eqb (refreshed_with sc old d) old = code_eqb (code_of_disk d) (code_of_hash old).
+Proof. exact refreshed_exact_with. Qed.
+
+(* One path of compute_inp_hashes after an honest history: the path is entered in new_hashes and a
+   message (1 = vanished, 2 = changed) is produced iff content, size or mode differ from the record;
+   ConsistencyError is not raised. *)
+Theorem C03_input_check_exact :
+  forall (c0 : cfile) (ops : list fsop),
+    cf_digest c0 <> 0 -> honest c0 (Some c0) ops = true ->
+    let old := record_of c0 in
+    let d := fs_run (Some c0) ops in
+    let differs := negb (code_eqb (code_of_disk d) (code_of_hash old)) in
+    inp_entry old d = (differs, (if differs then (match d with None => 1 | Some _ => 2 end) else 0), false).
+Proof. exact inp_entry_exact. Qed.
+
+(* The whole loop and its two uses in executor.py: `unexpected_input_changes = len(new_inp_hashes) > 0`
+   (FAILED + drain) is true iff SOME input handed to the check differs in content, size or mode, and
+   `len(messages) > 0` (no step hash) is the same condition. *)
+Theorem C03_unexpected_input_changes_exact :
+  forall rs : list (cfile * list fsop),
+    (forall r, In r rs -> honest_rec r) ->
+    inputs_changed (map rec_of rs)
+    = existsb (fun r => negb (code_eqb (code_of_disk (snd (rec_of r))) (code_of_hash (fst (rec_of r))))) rs
+    /\ inputs_reported (map rec_of rs) = inputs_changed (map rec_of rs).
+Proof. exact inputs_changed_exact. Qed.
+
+(* Without any assumption about the world, and for any shortcut: a reported change is a real one. *)
+Theorem C03_reported_change_is_real :
+  forall (sc : list (hfield * sfield)) (old : fhash) (d : option cfile),
+    fh_eqb (refreshed_with sc old d) old = false ->
+    code_eqb (code_of_disk d) (code_of_hash old) = false.
+Proof. exact changed_is_real. Qed.
+
+(* The two layers together, for any injective numbering `enc` of (digest, mode, size) triples (the
+   hash codes of model/Fresh.v): the record of a counted input f was taken from the file c0, an
+   honest history leaves other content, size or mode under the path when the command returns.  Then
+   the real chain flags the input and the completion step ends FAILED and draining. *)
+Theorem C03_replaced_input_fails_and_drains :
+  forall (enc : N * N * N -> N), (forall a b, enc a = enc b -> a = b) ->
+  forall (w : world) (r : runst) (t : N) (ok : bool) (f : N) (c0 : cfile) (ops : list fsop),
+    c_run w = Some r -> In f (considered w) ->
+    cf_digest c0 <> 0 -> honest c0 (Some c0) ops = true ->
+    f_hash (files w f) = enc (code_of_hash (record_of c0)) /\
+    disk w f = enc (code_of_disk (fs_run (Some c0) ops)) ->
+    code_of_disk (fs_run (Some c0) ops) <> code_of_hash (record_of c0) ->
+    fst (fst (inp_entry (record_of c0) (fs_run (Some c0) ops))) = true /\
+    let w' := fst (do_end w t ok) in
+    c_state w' = SS_FAILED /\ c_deferred w' = false /\ draining w' = true /\ c_run w' = None.
+Proof. exact replaced_input_fails_and_drains. Qed.
+
+(* ... and a history that leaves the recorded content, size and mode under the path (same bytes in
+   a new inode, touch, chmod there and back) flags nothing. *)
+Theorem C03_unchanged_input_not_flagged :
+  forall (enc : N * N * N -> N) (w : world) (f : N) (c0 : cfile) (ops : list fsop),
+    cf_digest c0 <> 0 -> honest c0 (Some c0) ops = true ->
+    f_hash (files w f) = enc (code_of_hash (record_of c0)) /\
+    disk w f = enc (code_of_disk (fs_run (Some c0) ops)) ->
+    code_of_disk (fs_run (Some c0) ops) = code_of_hash (record_of c0) ->
+    inp_entry (record_of c0) (fs_run (Some c0) ops) = (false, 0, false) /\ ~ In f (changed_inputs w).
+Proof. exact unchanged_input_not_flagged. Qed.
+
+(* NOT TRUE of a shortcut that does not compare the inode number (mode, mtime, size only): the
+   recorded file (digest 1, mode 0o644, mtime 5, size 3, inode 10) is replaced through rename(2) by
+   other bytes in inode 11 with the recorded mode, mtime and size (rsync -t, cp -p + mv) -- an honest
+   history.  That shortcut returns the old object: nothing flagged; the full one flags the path.
+   Replayed on the real Executor (p_c03.replace_kind_witnesses, kind rename_keep) and through the
+   real serve() (c03_repl.py). *)
+Theorem C03_shortcut_without_inode_refuted :
+  cf_digest wit_c0 <> 0 /\ honest wit_c0 (Some wit_c0) wit_rename_keep = true /\
+  code_eqb (code_of_disk (fs_run (Some wit_c0) wit_rename_keep)) (code_of_hash (record_of wit_c0)) = false /\
+  inp_entry_with shortcut_without_inode (record_of wit_c0) (fs_run (Some wit_c0) wit_rename_keep)
+    = (false, 0, false) /\
+  inp_entry_with shortcut_full (record_of wit_c0) (fs_run (Some wit_c0) wit_rename_keep) = (true, 2, false).
+Proof. exact without_inode_refuted. Qed.
+
+Theorem C03_refreshed_exact_without_inode_refuted :
+  ~ (forall c0 ops, cf_digest c0 <> 0 -> honest c0 (Some c0) ops = true ->
+       fh_eqb (refreshed_with shortcut_without_inode (record_of c0) (fs_run (Some c0) ops)) (record_of c0)
+       = code_eqb (code_of_disk (fs_run (Some c0) ops)) (code_of_hash (record_of c0))).
+Proof. exact exact_without_inode_refuted. Qed.
+
+(* The hypothesis `honest` cannot be dropped (an ASSUMPTION, like no_aba; not a defect): other bytes
+   of the same size written in place and the recorded mtime restored by utime leave every stat field
+   as recorded; even the full shortcut returns the old object. *)
+Theorem C03_refreshed_forgery_is_not_noticed :
+  honest wit_c0 (Some wit_c0) wit_forgery = false /\
+  code_eqb (code_of_disk (fs_run (Some wit_c0) wit_forgery)) (code_of_hash (record_of wit_c0)) = false /\
+  inp_entry_with shortcut_full (record_of wit_c0) (fs_run (Some wit_c0) wit_forgery) = (false, 0, false).
+Proof. exact forgery_not_noticed. Qed.
+
+(* Non-vacuity: an honest history that uses every operation (utime, chmod, the same bytes moved in
+   with the recorded mtime, a write in place, unlink, other bytes moved in with the recorded stat
+   fields) is flagged as changed; touch + same bytes in a new inode is not; unlink is "vanished". *)
+Example C03_example_honest_history :
+  honest wit_c0 (Some wit_c0) wit_history = true /\
+  inp_entry (record_of wit_c0) (fs_run (Some wit_c0) wit_history) = (true, 2, false) /\
+  inp_entry (record_of wit_c0) (fs_run (Some wit_c0) [OpUtime 6; OpRename (mkCF 1 420 5 3 12)]) = (false, 0, false) /\
+  inp_entry (record_of wit_c0) (fs_run (Some wit_c0) [OpUnlink]) = (true, 1, false).
+Proof. exact honest_example. Qed.
 
 (* ---------------------------------------------------------------------------------------- *)
 (* Non-vacuity.                                                                              *)
